@@ -944,11 +944,11 @@ impl FseEncoder {
                 }
                 current_state = new_state;
             } else {
-                println!("FSE encode[{}]: FALLBACK symbol={} ('{}'), state={}", 
-                    encode_count, symbol, symbol as char, current_state);
-                // Fallback: emit symbol directly with escape marker
-                output.push(0xFF); // Escape marker
-                output.push(symbol); // Literal symbol
+                // The symbol has no slot in the table (model built from other data, or the normaliser
+                // rounded it to zero).  The decoder has no escape syntax, so this cannot be encoded.
+                return Err(ZiporaError::invalid_data(format!(
+                    "FSE: symbol {} has no slot in the compression table", symbol
+                )));
             }
             encode_count += 1;
         }
